@@ -137,6 +137,7 @@ type inlineStats struct {
 }
 
 type inliner struct {
+	sentinels     map[*types.Var]bool
 	p             *Prog
 	pk            *packages.Package
 	file          *ast.File
@@ -1996,6 +1997,11 @@ func (in *inliner) inlineCallMode(call *ast.CallExpr, stack []*types.Func, sites
 							switch obj := in.pk.TypesInfo.Uses[o].(type) {
 							case *types.Nil:
 								known, set = true, false
+							case *types.Var:
+								// a package-level sentinel: var ErrX = errors.New(...), never assigned again
+								if in.sentinelError(obj) {
+									known, set = true, true
+								}
 							case *types.Const:
 								if obj.Parent() == types.Universe && (obj.Name() == "true" || obj.Name() == "false") {
 									known, set = true, obj.Name() == "true"
@@ -2033,7 +2039,8 @@ func (in *inliner) inlineCallMode(call *ast.CallExpr, stack []*types.Func, sites
 						out = append(out, in.cloneNode(thread.ifs.Else).(ast.Stmt))
 					}
 				} else if thread != nil {
-					deferBad = "threaded return with a multi-value expression"
+					// return f(...) with a multi-value call: nothing is known about the tested result here
+					out = append(out, in.cloneNode(thread.ifs).(ast.Stmt))
 				}
 			}
 			if o, _ := in.origOf(x).(*ast.ReturnStmt); o != nil {
@@ -2372,4 +2379,66 @@ func labelLoopBranches(fd *ast.FuncDecl) {
 		}
 		return true
 	})
+}
+
+// sentinelError: v is a package-level variable of this package declared with an errors.New / fmt.Errorf initialiser,
+// and nothing in the package assigns to it or takes its address: it is non-nil whenever it is read.
+func (in *inliner) sentinelError(v *types.Var) bool {
+	if v.Pkg() == nil || v.Parent() != v.Pkg().Scope() || v.Pkg() != in.pk.Types {
+		return false
+	}
+	if in.sentinels == nil {
+		in.sentinels = map[*types.Var]bool{}
+		written := map[*types.Var]bool{}
+		for _, f := range in.pk.Syntax {
+			ast.Inspect(f, func(n ast.Node) bool {
+				switch x := n.(type) {
+				case *ast.ValueSpec:
+					if len(x.Values) != len(x.Names) {
+						return true
+					}
+					for i, nm := range x.Names {
+						obj, _ := in.pk.TypesInfo.Defs[nm].(*types.Var)
+						if obj == nil || obj.Parent() != in.pk.Types.Scope() {
+							continue
+						}
+						if call, ok := ast.Unparen(x.Values[i]).(*ast.CallExpr); ok {
+							if se, ok := call.Fun.(*ast.SelectorExpr); ok {
+								if pk, ok := se.X.(*ast.Ident); ok {
+									if pn, ok := in.pk.TypesInfo.Uses[pk].(*types.PkgName); ok {
+										path := pn.Imported().Path()
+										if (path == "fmt" && se.Sel.Name == "Errorf") || (path == "errors" && se.Sel.Name == "New") {
+											in.sentinels[obj] = true
+										}
+									}
+								}
+							}
+						}
+					}
+				case *ast.AssignStmt:
+					for _, l := range x.Lhs {
+						if id, ok := ast.Unparen(l).(*ast.Ident); ok {
+							if obj, ok := in.pk.TypesInfo.Uses[id].(*types.Var); ok {
+								written[obj] = true
+							}
+						}
+					}
+				case *ast.UnaryExpr:
+					if x.Op == token.AND {
+						if id, ok := ast.Unparen(x.X).(*ast.Ident); ok {
+							if obj, ok := in.pk.TypesInfo.Uses[id].(*types.Var); ok {
+								written[obj] = true
+							}
+						}
+					}
+				case *ast.IncDecStmt, *ast.RangeStmt:
+				}
+				return true
+			})
+		}
+		for obj := range written {
+			delete(in.sentinels, obj)
+		}
+	}
+	return in.sentinels[v]
 }
